@@ -1,4 +1,4 @@
-import Xp.Proofs.C16Refs
+import Xp.Proofs.C16WorldRec
 import Xp.Gen.C16
 /-
 C16 — establishing package objects is all-or-nothing and respects the
@@ -823,5 +823,368 @@ example :
   decide
 
 end RefsExamples
+
+/-! ## 9. The world: interference during validation and inside ReleaseObjects, cached reads
+
+Section 7 lets the third party write after the validate phase. Here (`Model/C16World.lean`)
+it also writes DURING the validate phase — immediately before the Get of the goroutine of any
+object and between that Get and the dry-run write of the same goroutine, so an object
+validated later sees a different store than one validated earlier — and INSIDE ReleaseObjects —
+before the Get of a reference's goroutine and between that Get and its Update. The Get of the
+validate phase is a cached read (`VInterf.stale`): it may miss an object that exists or serve
+an older version; the reconciler's Get of the revision itself may serve an older
+`status.objectRefs` (`World.staleRefs`; every write of the revision object is then refused). Every theorem is for ALL well-formed stores,
+rejection predicates, fault plans, completion orders, interference (`VInterf`, `Interf`,
+`RInterf`) and staleness; the only hypothesis on the cache (`StaleOK`) is that what it serves
+is a VERSION: an object of the key asked for whose resourceVersion was handed out before the
+call and names that content (`Seen`).
+
+`EPuts vi tp a` / `ri.Puts a` / `w.Puts a` — the third party put `a` during this Establish /
+ReleaseObjects / reconcile. What is new compared with section 7: the revision can now
+legitimately REWRITE an object the third party put (it validated it after the put), case
+`rethird` of `OriginV`; the role laws hold for that rewrite relative to what the third party
+put. -/
+
+/-- Sections 1–8 are the special case "nobody interferes during validation or release, and
+the cache is up to date". -/
+theorem world_no_interference (rejects : Obj → Bool) (fault : Fault) (tp : Interf) (p : Parent) (control : Bool)
+    (s : Store) (objs : List Desired) (vorder eorder : List Nat) (ran : Nat → Bool) (refs : List Ref)
+    (order : List Nat) (sys : Sys) (r : Rev) (e : Env) (h : List HStep) :
+    establishV rejects fault VInterf.none tp p control s objs vorder eorder =
+      establishI rejects fault tp p control s objs vorder eorder ∧
+    releaseV rejects fault RInterf.none p ran s refs order = release rejects fault p ran s refs order ∧
+    reconcileRevV sys r e { e := tp } = reconcileRevI sys r e tp ∧
+    runHistoryV sys (h.map fun x => ⟨x.before, x.rev, x.env, { e := x.tp }⟩) = runHistoryI sys h :=
+  ⟨establishV_none _ _ _ _ _ _ _ _ _, releaseV_none _ _ _ _ _ _ _, reconcileRevV_none _ _ _ _, runHistoryV_none _ _⟩
+
+/-- **The validate phase writes nothing, whoever interferes and whatever the cache serves**:
+the store it ends in is well formed, the revision's log of non-dry-run writes is unchanged,
+and every object is an object of the initial store or one the third party put. -/
+theorem validate_writes_nothing_world (rejects : Obj → Bool) (fault : Fault) (vi : VInterf) (p : Parent) (control : Bool)
+    (s : Store) (xs : List (Nat × Desired)) (hw : WF s) :
+    let s' := (validateAllV rejects fault vi p control s xs).1
+    WF s' ∧ s'.log = s.log ∧ ∀ o ∈ s'.objs, o ∈ s.objs ∨ PutBy vi.Puts o :=
+  have h := validateAllV_writes_nothing rejects fault vi p control s xs hw
+  ⟨h.wf, h.log, h.objs⟩
+
+/-- **Any failure of the validate phase leaves the revision's hands clean** — a rejection, a
+foreign controller, a transient error or crash, and also: a Conflict / AlreadyExists / NotFound
+at a dry run because the third party wrote between the Get and the dry run, or because the
+cache served a stale version or missed the object. Establish then fails, has issued no
+non-dry-run write, and the store differs from the initial one by third-party writes only. -/
+theorem failed_validation_writes_nothing_world (rejects : Obj → Bool) (fault : Fault) (vi : VInterf) (tp : Interf)
+    (p : Parent) (control : Bool) (s : Store) (objs : List Desired) (vorder eorder : List Nat) (hw : WF s)
+    (hf : (validateAllV rejects fault vi p control s (pick objs vorder)).2.failed) :
+    let r := establishV rejects fault vi tp p control s objs vorder eorder
+    (∀ refs, r.2 ≠ .ok refs) ∧ r.1.log = s.log ∧ ∀ o ∈ r.1.objs, o ∈ s.objs ∨ PutBy vi.Puts o :=
+  have h := establishV_validate_failed rejects fault vi tp p control s objs vorder eorder hw hf
+  ⟨h.2, h.1.log, h.1.objs⟩
+
+/-- **All or nothing in the world.** If some object of the package is blocked (as in
+`all_or_nothing`), its goroutine's read is not stale, and the third party's validate-phase
+writes leave that object's key alone — whatever it does to every other object, whenever —
+then Establish fails and the revision writes nothing (not even an attempt), although objects
+validated before and after it may have met different stores. -/
+theorem all_or_nothing_world (rejects : Obj → Bool) (fault : Fault) (vi : VInterf) (tp : Interf) (p : Parent) (control : Bool)
+    (s : Store) (objs : List Desired) (vorder eorder : List Nat) (hw : WF s)
+    (j : Nat) (d : Desired) (hd : objs[j]? = some d) (hj : j ∈ vorder)
+    (hq : vi.Quiet d.key) (hs : vi.stale j = none)
+    (hb : (control = true ∧ ForeignControlled p s d) ∨
+          (∃ o, submission p control s d = some o ∧ rejects o = true) ∨
+          (control = true ∧ d.needsCA = true ∧ p.tls ≠ .present)) :
+    let r := establishV rejects fault vi tp p control s objs vorder eorder
+    (∀ refs, r.2 ≠ .ok refs) ∧ r.1.log = s.log ∧ ∀ o ∈ r.1.objs, o ∈ s.objs ∨ PutBy vi.Puts o :=
+  failed_validation_writes_nothing_world rejects fault vi tp p control s objs vorder eorder hw
+    (validateAllV_failed rejects fault vi p control s (pick objs vorder) j d (mem_pick objs vorder j d hd hj) hq hs hb)
+
+/-- **Master classification in the world** (`OriginV`): every object after Establish is an
+untouched object of the initial store; such an object rewritten by the revision within the role
+law `QE`; an object created within `CE` (active parent only); an object the third party put; or
+an object the third party put that the revision then rewrote within `QE`. The resulting store
+is well formed. -/
+theorem establish_world_origin (rejects : Obj → Bool) (fault : Fault) (vi : VInterf) (tp : Interf) (p : Parent) (control : Bool)
+    (s : Store) (objs : List Desired) (vorder eorder : List Nat) (hw : WF s)
+    (hst : StaleOK s vi (pick objs vorder)) :
+    WF (establishV rejects fault vi tp p control s objs vorder eorder).1 ∧
+    ∀ o' ∈ (establishV rejects fault vi tp p control s objs vorder eorder).1.objs,
+      OriginV p control (EPuts vi tp) s.objs o' :=
+  have h := establishV_inv rejects fault vi tp p control s objs vorder eorder hw hst
+  ⟨h.wf, h.objs⟩
+
+/-- **An inactive revision never creates anything, in the world**: every object present after
+Establish(control = false) has a key that was present before or that the third party put; and
+the revision's own non-dry-run writes are updates only — it does not even attempt a create,
+whatever a stale or missing cache entry made it believe. -/
+theorem inactive_never_creates_world (rejects : Obj → Bool) (fault : Fault) (vi : VInterf) (tp : Interf) (p : Parent)
+    (s : Store) (objs : List Desired) (vorder eorder : List Nat) (hw : WF s)
+    (hst : StaleOK s vi (pick objs vorder)) :
+    let s' := (establishV rejects fault vi tp p false s objs vorder eorder).1
+    (∀ o' ∈ s'.objs, (∃ o ∈ s.objs, o.key = o'.key) ∨ (∃ a, EPuts vi tp a ∧ a.key = o'.key)) ∧
+    (∃ new, s'.log = s.log ++ new ∧ ∀ e ∈ new, e.verb = .update) := by
+  refine ⟨fun o' ho' => ?_, ?_⟩
+  · cases (establishV_inv rejects fault vi tp p false s objs vorder eorder hw hst).objs o' ho' with
+    | same h => exact Or.inl ⟨o', h, rfl⟩
+    | rewritten o ho hk _ => exact Or.inl ⟨o, ho, hk⟩
+    | created c => exact absurd c.active (by simp)
+    | third t => obtain ⟨a, ha, hk, _⟩ := t; exact Or.inr ⟨a, ha, hk.symm⟩
+    | rethird o t hk _ => obtain ⟨a, ha, hka, _⟩ := t; exact Or.inr ⟨a, ha, hka.symm.trans hk⟩
+  · obtain ⟨new, he, hn⟩ := establishV_log rejects fault vi tp p false s objs vorder eorder hw
+    exact ⟨new, he, fun e h => (hn e h).resolve_right (by simp)⟩
+
+/-- **Only an active revision becomes controller, in the world** (both roles in one statement):
+a controller reference on an object after Establish was on the object of that key before, or
+on an object of that key the third party put, or it is the parent's and the parent is active. -/
+theorem only_active_controls_world (rejects : Obj → Bool) (fault : Fault) (vi : VInterf) (tp : Interf) (p : Parent) (control : Bool)
+    (s : Store) (objs : List Desired) (vorder eorder : List Nat) (hw : WF s)
+    (hst : StaleOK s vi (pick objs vorder)) :
+    ∀ o' ∈ (establishV rejects fault vi tp p control s objs vorder eorder).1.objs, ∀ u, ctrl o'.owners u →
+      (∃ o ∈ s.objs, o.key = o'.key ∧ ctrl o.owners u) ∨
+      (∃ a, EPuts vi tp a ∧ a.key = o'.key ∧ ctrl a.owners u) ∨ (control = true ∧ u = p.uid) := by
+  intro o' ho' u hu
+  cases (establishV_inv rejects fault vi tp p control s objs vorder eorder hw hst).objs o' ho' with
+  | same h => exact Or.inl ⟨o', h, rfl, hu⟩
+  | rewritten o ho hk q =>
+    rcases q.ctrls u hu with h | h
+    · exact Or.inl ⟨o, ho, hk, h⟩
+    · exact Or.inr (Or.inr h)
+  | created c => exact Or.inr (Or.inr ⟨c.active, c.ctrls u hu⟩)
+  | third t => obtain ⟨a, ha, hk, hown, _⟩ := t; exact Or.inr (Or.inl ⟨a, ha, hk.symm, hown ▸ hu⟩)
+  | rethird o t hk q =>
+    obtain ⟨a, ha, hka, hown, _⟩ := t
+    rcases q.ctrls u hu with h | h
+    · exact Or.inr (Or.inl ⟨a, ha, hka.symm.trans hk, hown ▸ h⟩)
+    · exact Or.inr (Or.inr h)
+
+/-- **An inactive revision is at most a plain owner, in the world**: every object after
+Establish(control = false) is untouched, or the third party's, or a rewrite of an object `o` —
+of the initial store or put by the third party — with the same content, no owner entry
+dropped, no new controller, the revision present as a plain owner reference, and the
+revision's own entry (the first with its uid) not a controller reference. -/
+theorem inactive_plain_owner_world (rejects : Obj → Bool) (fault : Fault) (vi : VInterf) (tp : Interf) (p : Parent)
+    (s : Store) (objs : List Desired) (vorder eorder : List Nat) (hw : WF s)
+    (hst : StaleOK s vi (pick objs vorder)) :
+    ∀ o' ∈ (establishV rejects fault vi tp p false s objs vorder eorder).1.objs,
+      o' ∈ s.objs ∨ PutBy (EPuts vi tp) o' ∨
+      ∃ o, (o ∈ s.objs ∨ PutBy (EPuts vi tp) o) ∧ o.key = o'.key ∧ o'.body = o.body ∧ asOwner p ∈ o'.owners ∧
+        (∀ u, hasUid o.owners u → hasUid o'.owners u) ∧ (∀ u, ctrl o'.owners u → ctrl o.owners u) ∧
+        NotCtrlBy o' p.uid := by
+  intro o' ho'
+  have key : ∀ o, QE p false o o' → o'.body = o.body ∧ asOwner p ∈ o'.owners ∧
+      (∀ u, hasUid o.owners u → hasUid o'.owners u) ∧ (∀ u, ctrl o'.owners u → ctrl o.owners u) ∧
+      NotCtrlBy o' p.uid := by
+    intro o q
+    refine ⟨q.body rfl, q.mine, q.uids, fun u hu => ?_, q.released rfl⟩
+    rcases q.ctrls u hu with h | ⟨h, _⟩
+    · exact h
+    · cases h
+  cases (establishV_inv rejects fault vi tp p false s objs vorder eorder hw hst).objs o' ho' with
+  | same h => exact Or.inl h
+  | rewritten o ho hk q => exact Or.inr (Or.inr ⟨o, Or.inl ho, hk, key o q⟩)
+  | created c => exact absurd c.active (by simp)
+  | third t => exact Or.inr (Or.inl t)
+  | rethird o t hk q => exact Or.inr (Or.inr ⟨o, Or.inr t, hk, key o q⟩)
+
+/-- **The package is a plain owner of whatever the revision wrote, in the world**. -/
+theorem package_is_plain_owner_world (rejects : Obj → Bool) (fault : Fault) (vi : VInterf) (tp : Interf) (p : Parent) (control : Bool)
+    (s : Store) (objs : List Desired) (vorder eorder : List Nat) (hw : WF s)
+    (hst : StaleOK s vi (pick objs vorder))
+    (q : ORef) (hq : pkgRef p = some q) (hne : q.uid ≠ p.uid) :
+    ∀ o' ∈ (establishV rejects fault vi tp p control s objs vorder eorder).1.objs,
+      o' ∈ s.objs ∨ PutBy (EPuts vi tp) o' ∨ (q ∈ o'.owners ∧ q.controller = some false) := by
+  intro o' ho'
+  cases (establishV_inv rejects fault vi tp p control s objs vorder eorder hw hst).objs o' ho' with
+  | same h => exact Or.inl h
+  | rewritten o ho hk qe => exact Or.inr (Or.inr ⟨qe.pkg q hq hne, pkgRef_controller p q hq⟩)
+  | created c => exact Or.inr (Or.inr ⟨c.pkg q hq hne, pkgRef_controller p q hq⟩)
+  | third t => exact Or.inr (Or.inl t)
+  | rethird o t hk qe => exact Or.inr (Or.inr ⟨qe.pkg q hq hne, pkgRef_controller p q hq⟩)
+
+/-- **Deactivation keeps ownership and gives up control, whoever interferes with
+ReleaseObjects**: the store stays well formed; ReleaseObjects issues updates only; and every
+object afterwards is some `b` — an object of the initial store or one the third party put —
+either untouched or rewritten with the same content, no owner entry dropped, nobody made
+controller, the revision an owner whose (first) entry is no controller reference. In
+particular ReleaseObjects never writes over a third-party write it has not read. -/
+theorem release_world (rejects : Obj → Bool) (fault : Fault) (ri : RInterf) (p : Parent) (ran : Nat → Bool)
+    (s : Store) (refs : List Ref) (order : List Nat) (hw : WF s) :
+    let s' := (releaseV rejects fault ri p ran s refs order).1
+    WF s' ∧ (∃ new, s'.log = s.log ++ new ∧ ∀ e ∈ new, e.verb = .update) ∧
+    ∀ o' ∈ s'.objs, ∃ b, (b ∈ s.objs ∨ PutBy ri.Puts b) ∧
+      (o' = b ∨ (o'.key = b.key ∧ o'.body = b.body ∧ (∀ u, hasUid b.owners u → hasUid o'.owners u) ∧
+                 (∀ u, ctrl o'.owners u → ctrl b.owners u) ∧ hasUid o'.owners p.uid ∧ NotCtrlBy o' p.uid)) := by
+  have h := releaseV_inv rejects fault ri p ran s refs order hw
+  refine ⟨h.wf, ?_, fun o' ho' => ?_⟩
+  · obtain ⟨new, he, hn⟩ := releaseAllV_log rejects fault ri p ran s (pick refs order)
+    exact ⟨new, he, fun e h => (hn e h).resolve_right (by simp)⟩
+  · obtain ⟨b, hb, hr⟩ := h.objs o' ho'
+    exact ⟨b, hb, hr.imp id fun q => ⟨q.key, q.body, q.uids, q.ctrls, q.mine, q.released⟩⟩
+
+/-- **A successful release has released everything it references, whoever interferes**: every
+stored object named by a reference (whose goroutine is in the order) is one the third party
+put, or has the revision as an owner that is not its controller. -/
+theorem release_gives_up_control_world (rejects : Obj → Bool) (fault : Fault) (ri : RInterf) (p : Parent) (ran : Nat → Bool)
+    (s s' : Store) (refs : List Ref) (order : List Nat) (hw : WF s)
+    (h : releaseV rejects fault ri p ran s refs order = (s', .ok ()))
+    (j : Nat) (k : Ref) (hk : refs[j]? = some k) (hj : j ∈ order) :
+    ∀ o' ∈ s'.objs, o'.key = k.key → PutBy ri.Puts o' ∨ (hasUid o'.owners p.uid ∧ NotCtrlBy o' p.uid) :=
+  releaseV_ok rejects fault ri p ran s s' refs order hw h j k hk hj
+
+/-- **`status.objectRefs` in the world**: a reconcile that does not end in success leaves the
+lists of all revisions as they were; a reconcile never touches another revision's list; and a
+reconcile whose read of the revision was stale never ends in success and never changes any
+list (every write of the revision object is refused), so a stale list is never written back. -/
+theorem object_refs_world (sys : Sys) (r : Rev) (e : Env) (w : World) :
+    ((reconcileRevV sys r e w).2 ≠ .ok () → (reconcileRevV sys r e w).1.refs = sys.refs) ∧
+    (w.staleRefs.isSome = true →
+      (reconcileRevV sys r e w).2 ≠ .ok () ∧ (reconcileRevV sys r e w).1.refs = sys.refs) ∧
+    (∀ v, v ≠ r.parent.uid → (reconcileRevV sys r e w).1.refs v = sys.refs v) :=
+  reconcileRevV_refs sys r e w
+
+/-- **Reconciling an inactive revision in the world** (ReleaseObjects and Establish(false), the
+third party writing anywhere, stale reads of the objects and of the revision): no object
+appears that was not there or put by the third party, and no controller reference appears
+that was not there or written by the third party. -/
+theorem inactive_reconcile_world (sys : Sys) (r : Rev) (e : Env) (w : World)
+    (hw : WF sys.store) (hr : r.active = false) (hst : StaleOK sys.store w.v (pick r.objs e.vorder)) :
+    ∀ o' ∈ (reconcileRevV sys r e w).1.store.objs,
+      ((∃ o ∈ sys.store.objs, o.key = o'.key) ∨ (∃ a, w.Puts a ∧ a.key = o'.key)) ∧
+      ∀ u, ctrl o'.owners u →
+        (∃ o ∈ sys.store.objs, o.key = o'.key ∧ ctrl o.owners u) ∨ (∃ a, w.Puts a ∧ a.key = o'.key ∧ ctrl a.owners u) := by
+  intro o' ho'
+  have g := ((GInv.init sys.store (fun _ => False) w.Puts hw).reconcileV r e w hst
+    (fun ha => by rw [hr] at ha; cases ha) (fun _ h => h)).good o' ho'
+  constructor
+  · rcases g.origin with h | h | ⟨_, hf, _⟩
+    · exact Or.inl h
+    · exact Or.inr h
+    · exact hf.elim
+  · intro u hu
+    rcases g.ctrls u hu with h | hf | h
+    · exact Or.inl h
+    · exact hf.elim
+    · exact Or.inr h
+
+/-- **A successful inactive reconcile gives up all control, in the world**: if everything the
+revision controls is listed in its `status.objectRefs` and every ReleaseObjects goroutine is in
+the completion order, then after a reconcile of the inactive revision that reports success the
+revision is the controller of no object (objects put by the third party aside) — whatever the
+third party did before the Gets, between a Get and its Update, or during the Establish call
+that follows when the list is empty. -/
+theorem inactive_reconcile_gives_up_control_world (sys sys' : Sys) (r : Rev) (e : Env) (w : World)
+    (hw : WF sys.store) (hr : r.active = false) (hl : Listed sys r.parent.uid)
+    (hst : StaleOK sys.store w.v (pick r.objs e.vorder))
+    (ho : ∀ j, j < (sys.refs r.parent.uid).length → j ∈ e.rorder)
+    (h : reconcileRevV sys r e w = (sys', .ok ())) :
+    ∀ o' ∈ sys'.store.objs, PutBy w.Puts o' ∨ NotCtrlBy o' r.parent.uid :=
+  reconcileRevV_released sys sys' r e w hw hr hl hst ho h
+
+/-- **History corollary in the world** (induction over the history): any sequence of reconciles
+of any revisions in any roles, under any faults and orders, the third party writing before
+every reconcile, inside every validate phase, establish phase and ReleaseObjects call, with
+stale cached reads (`WorldOK`: each serves a version). Comparing the final store with the
+initial one: the store is well formed; a controller reference at the end was on the object of
+that key at the start, or belongs to a revision reconciled as *active*, or was written by the
+third party; an object at the end has a key present at the start, or a key the third party
+put, or is owned by a revision that was reconciled as active. -/
+theorem history_roles_world (sys : Sys) (h : List WStep) (hw : WF sys.store) (hok : WorldOK sys h) :
+    let s' := (runHistoryV sys h).store
+    WF s' ∧
+    (∀ o' ∈ s'.objs, ∀ u, ctrl o'.owners u →
+        (∃ o ∈ sys.store.objs, o.key = o'.key ∧ ctrl o.owners u) ∨ ActiveInV h u ∨
+        (∃ a, PutsInV h a ∧ a.key = o'.key ∧ ctrl a.owners u)) ∧
+    (∀ o' ∈ s'.objs, (∃ o ∈ sys.store.objs, o.key = o'.key) ∨ (∃ a, PutsInV h a ∧ a.key = o'.key) ∨
+        (∃ u, ActiveInV h u ∧ hasUid o'.owners u)) := by
+  have g := runHistoryV_ginv sys.store.objs (ActiveInV h) (PutsInV h) h sys hok (fun _ h => h) (fun _ h => h)
+    (GInv.init sys.store _ _ hw)
+  exact ⟨g.wf, fun o' ho' => (g.good o' ho').ctrls, fun o' ho' => (g.good o' ho').origin⟩
+
+/-- **A package never becomes a controller, in the world.** -/
+theorem package_never_controller_world (sys : Sys) (h : List WStep) (hw : WF sys.store) (hok : WorldOK sys h) (q : Nat)
+    (hq : ∀ x ∈ h, x.rev.parent.uid ≠ q) (h0 : ∀ o ∈ sys.store.objs, ¬ ctrl o.owners q)
+    (hp : ∀ a, PutsInV h a → ¬ ctrl a.owners q) :
+    ∀ o' ∈ (runHistoryV sys h).store.objs, ¬ ctrl o'.owners q := by
+  intro o' ho' hc
+  rcases (history_roles_world sys h hw hok).2.1 o' ho' q hc with ⟨o, ho, _, hco⟩ | ⟨x, hx, _, hxu⟩ | ⟨a, ha, _, hca⟩
+  · exact h0 o ho hco
+  · exact hq x hx hxu
+  · exact hp a ha hca
+
+section WorldExamples
+
+/-- between the Get of object 0 (`Composition/b`, absent) and its dry-run create a third party
+creates `b`, controlled by a foreign owner: the dry run answers AlreadyExists, Establish fails
+and has written nothing — the object stays exactly what the third party put -/
+example : establishV exOk Fault.none { dry := fun i => if i = 0 then [.put ⟨"Composition/b", 0, [⟨90, some true, none⟩], 4⟩] else [] }
+      Interf.none exRev11 true exStore2 [{ key := "Composition/b", body := 5 }] [0] [0]
+    = (⟨exStore2.objs ++ [⟨"Composition/b", 2, [⟨90, some true, none⟩], 4⟩], 3, []⟩, .err .alreadyExists) := by decide
+
+/-- the same write BEFORE the Get: the active revision sees a foreign controller and refuses
+locally (`hq` of `all_or_nothing_world` is needed: the third party can block and unblock) -/
+example : (establishV exOk Fault.none { get := fun i => if i = 0 then [.put ⟨"Composition/b", 0, [⟨90, some true, none⟩], 4⟩] else [] }
+      Interf.none exRev11 true exStore2 [{ key := "Composition/b", body := 5 }] [0] [0]).2 = .err .notControllable := by decide
+
+/-- case `rethird` is real: a third party creates `b` (uncontrolled) right before the inactive
+revision 11 validates it; the revision then adds itself and its package as plain owners of the
+third party's object — it neither created it nor controls it -/
+example : ((establishV exOk Fault.none { get := fun i => if i = 0 then [.put ⟨"Composition/b", 0, [⟨91, none, none⟩], 4⟩] else [] }
+      Interf.none exRev11 false exStore2 [{ key := "Composition/b", body := 5 }] [0] [0]).1.get "Composition/b").map (fun o => (o.owners, o.body))
+    = some ([⟨91, none, none⟩, ⟨1, some false, some true⟩, ⟨11, none, none⟩], 4) := by decide
+
+/-- a lagging cache: it still serves `c` as released by revision 10 (resourceVersion 0) although
+`c` is now (resourceVersion 1) controlled by the foreign owner 90. The active revision 11 decides
+"controllable" on the stale version; the dry-run update carries the stale resourceVersion and is
+refused: nothing is written. -/
+def exForeign : Store := ⟨[⟨"Composition/c", 1, [⟨90, some true, none⟩], 1⟩], 2, []⟩
+example : establishV exOk Fault.none
+      { stale := fun i => if i = 0 then some (some ⟨"Composition/c", 0, [⟨10, some false, some true⟩, ⟨1, some false, some true⟩], 1⟩) else none }
+      Interf.none exRev11 true exForeign [{ key := "Composition/c", body := 9 }] [0] [0]
+    = (exForeign, .err .conflict) := by decide
+
+/-- … and what it served satisfies `StaleOK` (a version: older resourceVersion, right key) -/
+example : StaleOK exForeign
+    { stale := fun i => if i = 0 then some (some ⟨"Composition/c", 0, [⟨10, some false, some true⟩, ⟨1, some false, some true⟩], 1⟩) else none }
+    (pick [({ key := "Composition/c", body := 9 } : Desired)] [0]) := by
+  intro x hx v hv
+  simp [pick] at hx
+  subst hx
+  simp at hv
+  subst hv
+  refine ⟨rfl, by decide, ?_⟩
+  intro c hc _ hrv
+  simp [exForeign] at hc
+  subst hc
+  simp at hrv
+
+/-- a cache miss: `c` exists but the Get says NotFound; the active revision dry-runs a create,
+which the server refuses (AlreadyExists); an INACTIVE revision believes the object absent and
+does nothing at all — in particular it creates nothing. -/
+example : establishV exOk Fault.none { stale := fun i => if i = 0 then some none else none }
+      Interf.none exRev11 true exStore2 [{ key := "Composition/c", body := 9 }] [0] [0] = (exStore2, .err .alreadyExists) ∧
+    establishV exOk Fault.none { stale := fun i => if i = 0 then some none else none }
+      Interf.none exRev11 false exStore2 [{ key := "Composition/c", body := 9 }] [0] [0]
+      = (exStore2, .ok [⟨"Composition/c", true⟩]) := by decide
+
+/-- ReleaseObjects: between the Get of `c` (controlled by revision 10) and its Update an
+administrator re-creates `c`. The Update carries the resourceVersion read and is refused; `c`
+remains exactly what the administrator put. -/
+example : releaseV exOk Fault.none { upd := fun i => if i = 0 then [.put ⟨"Composition/c", 0, [⟨91, none, none⟩], 7⟩] else [] }
+      exRev10 exAll exStore3 [⟨"Composition/c", true⟩] [0]
+    = (⟨[⟨"Composition/b", 1, [⟨10, some true, some true⟩, ⟨1, some false, some true⟩], 1⟩,
+         ⟨"Composition/c", 3, [⟨91, none, none⟩], 7⟩], 4, [⟨.update, "Composition/c", some .conflict, false⟩]⟩, .err .conflict) := by decide
+
+/-- a stale read of the revision: the cache still serves the list `[b]` for the healthy revision
+10 (it has meanwhile recorded `[b, c]`), now inactive. ReleaseObjects releases `b` only, the
+shortcut's status update is refused: the reconcile ends in an error, the list is not
+overwritten, and the next reconcile (fresh read) releases `c` as well. -/
+example :
+    let r := reconcileRevV exSys3 ⟨exRev10, false, exPkg⟩ exEnv2 { staleRefs := some [⟨"Composition/b", true⟩] }
+    r.2 = .err .conflict ∧ r.1.refs 10 = [⟨"Composition/b", true⟩, ⟨"Composition/c", true⟩] ∧
+    r.1.store.objs.map (·.owners) =
+      [[⟨10, some false, some true⟩, ⟨1, some false, some true⟩], [⟨10, some true, some true⟩, ⟨1, some false, some true⟩]] ∧
+    (reconcileRevV r.1 ⟨exRev10, false, exPkg⟩ exEnv2 {}).2 = .ok () ∧
+    (reconcileRevV r.1 ⟨exRev10, false, exPkg⟩ exEnv2 {}).1.store.objs.map (·.owners) =
+      [[⟨10, some false, some true⟩, ⟨1, some false, some true⟩], [⟨10, some false, some true⟩, ⟨1, some false, some true⟩]] := by decide
+
+end WorldExamples
 
 end Xp.C16
